@@ -142,6 +142,131 @@ theorem pos_charge_blocks_others (c : CC) (k : Nat) (pid : Int) (q2 : Rat) (t : 
     (h : pid.natAbs ≠ k) : (withPos c (some k)).getWeightNC pid q2 t = 0 := by
   simp [withPos, CC.getWeightNC, CC.posBlocked, h]
 
+/-! ## The partition lifted to whole weight maps (what a kernel carries) -/
+
+theorem sumPos_add (f g : CC → Rat) (c : CC) : sumPos (fun c' => f c' + g c') c = sumPos f c + sumPos g c := by
+  simp only [sumPos]; ring
+
+theorem sumPos_neg (f : CC → Rat) (c : CC) : sumPos (fun c' => - f c') c = - sumPos f c := by
+  simp only [sumPos]; ring
+
+theorem sumPos_zero (c : CC) : sumPos (fun _ => (0 : Rat)) c = 0 := by simp [sumPos]
+
+theorem sumPos_div (f : CC → Rat) (k : Rat) (c : CC) : sumPos (fun c' => f c' / k) c = sumPos f c / k := by
+  simp only [sumPos]; ring
+
+theorem sumPos_listSum {α} (l : List α) (f : α → CC → Rat) (c : CC) :
+    sumPos (fun c' => listSum (l.map fun a => f a c')) c = listSum (l.map fun a => sumPos (f a) c) := by
+  induction l with
+  | nil => simp [sumPos]
+  | cons a l ih =>
+    simp only [List.map, listSum_cons]
+    rw [sumPos_add, ih]
+
+theorem sumPos_ite (b : Bool) (f g : CC → Rat) (c : CC) :
+    sumPos (fun c' => if b then f c' else g c') c = if b then sumPos f c else sumPos g c := by
+  cases b <;> simp
+
+/-- the total charge average of `nc_weights` -/
+theorem ncWeights_partition (c : CC) (q2 : Rat) (nf : Nat) (hnf : nf ≤ 6) (pv skip : Bool) (p : Int) :
+    sumPos (fun c' => (ncWeights c' q2 nf pv skip).ns p) c = (ncWeights (withPos c none) q2 nf pv skip).ns p
+    ∧ sumPos (fun c' => (ncWeights c' q2 nf pv skip).g p) c = (ncWeights (withPos c none) q2 nf pv skip).g p
+    ∧ sumPos (fun c' => (ncWeights c' q2 nf pv skip).s p) c = (ncWeights (withPos c none) q2 nf pv skip).s p
+    ∧ sumPos (fun c' => (ncWeights c' q2 nf pv skip).v p) c = (ncWeights (withPos c none) q2 nf pv skip).v p := by
+  have hw : ∀ q : Nat, 1 ≤ q → q ≤ 6 → sumPos (fun c' => c'.wPair q q2 pv) c = (withPos c none).wPair q q2 pv :=
+    fun q h1 h6 => pos_charge_partition_wPair c q q2 pv h1 h6
+  -- the charge average
+  have htot : sumPos (fun c' => listSum ((pidsUpTo nf).map fun q => if ncCoupled nf skip q then c'.wPair q q2 pv else 0)) c
+      = listSum ((pidsUpTo nf).map fun q => if ncCoupled nf skip q then (withPos c none).wPair q q2 pv else 0) := by
+    rw [sumPos_listSum]
+    congr 1
+    apply List.map_congr_left
+    intro q hq
+    simp only [pidsUpTo, List.mem_map, List.mem_range] at hq
+    obtain ⟨i, hi, rfl⟩ := hq
+    by_cases hc : ncCoupled nf skip (i + 1) = true
+    · simp only [hc, if_true]; exact hw (i + 1) (by omega) (by omega)
+    · simp only [hc]; simp [sumPos]
+  have hns : ∀ q : Nat, ncCoupled nf skip q = true → 1 ≤ q ∧ q ≤ 6 := by
+    intro q h
+    simp only [ncCoupled, Bool.and_eq_true, decide_eq_true_eq] at h
+    omega
+  cases pv
+  · -- parity conserving
+    refine ⟨?_, ?_, ?_, ?_⟩
+    · simp only [ncWeights, Bool.false_and, Bool.false_eq_true, if_false]
+      by_cases hc : ncCoupled nf skip p.natAbs = true
+      · simp only [hc, if_true]; exact hw _ (hns _ hc).1 (hns _ hc).2
+      · simp only [hc]; simp [sumPos]
+    · simp only [ncWeights, Bool.false_eq_true, if_false]
+      by_cases hp : p = 21
+      · simp only [hp, if_true]; rw [sumPos_div, htot]
+      · simp only [hp, if_false]; simp [sumPos]
+    · simp only [ncWeights, Bool.false_eq_true, if_false]
+      split
+      · rw [sumPos_div, htot]
+      · simp [sumPos]
+    · simp [ncWeights, PMap.zero, sumPos]
+  · -- parity violating
+    refine ⟨?_, ?_, ?_, ?_⟩
+    · simp only [ncWeights, Bool.true_and, if_true]
+      by_cases hc : ncCoupled nf skip p.natAbs = true
+      · simp only [hc, if_true]
+        split
+        · rw [sumPos_neg, hw _ (hns _ hc).1 (hns _ hc).2]
+        · exact hw _ (hns _ hc).1 (hns _ hc).2
+      · simp only [hc]; simp [sumPos]
+    · simp [ncWeights, PMap.zero, sumPos]
+    · simp [ncWeights, PMap.zero, sumPos]
+    · simp only [ncWeights, if_true]
+      split
+      · split
+        · rw [sumPos_neg, sumPos_div, htot]
+        · rw [sumPos_div, htot]
+      · simp [sumPos]
+
+/-- the weight maps of massive NC heavy-quark production -/
+theorem heavyNCWeights_partition (c : CC) (q2 : Rat) (nf ihq : Nat) (h1 : 1 ≤ ihq) (h6 : ihq ≤ 6) (p : Int) :
+    sumPos (fun c' => (heavyNCWeights c' q2 nf ihq).gVV p) c = (heavyNCWeights (withPos c none) q2 nf ihq).gVV p
+    ∧ sumPos (fun c' => (heavyNCWeights c' q2 nf ihq).gAA p) c = (heavyNCWeights (withPos c none) q2 nf ihq).gAA p
+    ∧ sumPos (fun c' => (heavyNCWeights c' q2 nf ihq).sVV p) c = (heavyNCWeights (withPos c none) q2 nf ihq).sVV p
+    ∧ sumPos (fun c' => (heavyNCWeights c' q2 nf ihq).sAA p) c = (heavyNCWeights (withPos c none) q2 nf ihq).sAA p := by
+  have hA := fun t => pos_charge_partition_weight c (ihq : Int) q2 t (by simpa using h1) (by simpa using h6)
+  refine ⟨?_, ?_, ?_, ?_⟩ <;> simp only [heavyNCWeights] <;> split <;>
+    first | exact hA _ | simp [sumPos]
+
+/-- the `fl11` weight maps of the light N3LO pieces -/
+theorem ncFl11Weights_partition (c : CC) (q2 : Rat) (nf : Nat) (hnf : nf ≤ 6) (skip : Bool) (p : Int) :
+    sumPos (fun c' => (ncFl11Weights c' q2 nf skip).q p) c = (ncFl11Weights (withPos c none) q2 nf skip).q p
+    ∧ sumPos (fun c' => (ncFl11Weights c' q2 nf skip).g p) c = (ncFl11Weights (withPos c none) q2 nf skip).g p := by
+  have hw : ∀ q : Nat, 1 ≤ q → q ≤ 6 → sumPos (fun c' => c'.wFl11 q q2 nf) c = (withPos c none).wFl11 q q2 nf := by
+    intro q h1 h6
+    have hA := fun t => pos_charge_partition_fl11 c (q : Int) q2 nf t (by simpa using h1) (by simpa using h6)
+    simp only [CC.wFl11, sumPos] at *
+    rw [← hA .VV, ← hA .AA]; ring
+  have hns : ∀ q : Nat, ncCoupled nf skip q = true → 1 ≤ q ∧ q ≤ 6 := by
+    intro q h
+    simp only [ncCoupled, Bool.and_eq_true, decide_eq_true_eq] at h
+    omega
+  have htot : sumPos (fun c' => listSum ((pidsUpTo nf).map fun q => if ncCoupled nf skip q then c'.wFl11 q q2 nf else 0)) c
+      = listSum ((pidsUpTo nf).map fun q => if ncCoupled nf skip q then (withPos c none).wFl11 q q2 nf else 0) := by
+    rw [sumPos_listSum]
+    congr 1
+    apply List.map_congr_left
+    intro q hq
+    by_cases hc : ncCoupled nf skip q = true
+    · simp only [hc, if_true]; exact hw q (hns q hc).1 (hns q hc).2
+    · simp only [hc]; simp [sumPos]
+  constructor
+  · simp only [ncFl11Weights]
+    by_cases hc : ncCoupled nf skip p.natAbs = true
+    · simp only [hc, if_true]; exact hw _ (hns _ hc).1 (hns _ hc).2
+    · simp only [hc]; simp [sumPos]
+  · simp only [ncFl11Weights]
+    by_cases hp : p = 21
+    · simp only [hp, if_true]; rw [sumPos_div, htot]
+    · simp only [hp, if_false]; simp [sumPos]
+
 /-! ## Non-vacuity: a concrete FFNS-like configuration where all pieces are non-empty, and the
 witness that for four light flavours the naive sum double counts -/
 
